@@ -108,6 +108,10 @@ func numbers(M uint64) []string {
 		"3-", "--3", "1e3", "0x1F", "\u0663", "1_000", "07", " 5"}
 }
 
+// modeAlternatives replace a mode character: every mode of the '94 dialect
+// (four of them are illegal under ICWS'88) and three that are no modes.
+var modeAlternatives = []string{"!", "*", "}", "", "$$", "{", ">", "<", "@", "#", "$"}
+
 func corrSites(lines []string, legacy bool, M uint64) []Corr {
 	var out []Corr
 	nn := len(numbers(M))
@@ -130,7 +134,7 @@ func corrSites(lines []string, legacy bool, M uint64) []Corr {
 				}
 			}
 			if len(f[fi]) == 1 && strings.Contains("#$@<>*{}", f[fi]) {
-				for v := 0; v < 5; v++ {
+				for v := 0; v < len(modeAlternatives); v++ {
 					out = append(out, Corr{"mode", i, fi, v})
 				}
 			}
@@ -180,8 +184,7 @@ func applyCorr(lines []string, ks []Corr, legacy bool, M uint64) (string, bool) 
 			}
 			f[k.F] = alt[k.V]
 		case "mode":
-			alt := []string{"!", "*", "}", "", "$$"}
-			f[k.F] = alt[k.V]
+			f[k.F] = modeAlternatives[k.V]
 		}
 		ls[k.L] = strings.ReplaceAll(strings.Join(f, " "), " , ", ", ")
 	}
@@ -285,7 +288,7 @@ func (c *Ctx) RunC10(tier string) {
 			}
 		}
 	}
-	rep.Bound = fmt.Sprintf("10 canonical files per dialect x M in %v: truncation at every byte; every single corruption (delete / duplicate / transpose a field, 27 replacement numbers, 5 bad mnemonics, 5 bad modes, 22 insertions (directives in every form incl. five-field, mixed-case, hexadecimal and fractional ones, a 70000-character comment, a ;redcode line) at every line boundary), also without the final newline; every pair of corruptions (quick: for the first 3 files); (thorough) every single corruption truncated at every byte", sizes)
+	rep.Bound = fmt.Sprintf("10 canonical files per dialect x M in %v: truncation at every byte; every single corruption (delete / duplicate / transpose a field, 27 replacement numbers, 5 bad mnemonics, 11 replacement modes (every '94 mode and three non-modes), 22 insertions (directives in every form incl. five-field, mixed-case, hexadecimal and fractional ones, a 70000-character comment, a ;redcode line) at every line boundary), also without the final newline; every pair of corruptions (quick: for the first 3 files); (thorough) every single corruption truncated at every byte", sizes)
 	// very long lines: a comment line (and an instruction line padded with blanks)
 	// of 2^k-1, 2^k, 2^k+1 bytes for k in 10..22, followed by valid lines and by
 	// a line with an unknown mnemonic: nothing after the long line may be lost
